@@ -2,7 +2,7 @@ package recordlayer
 
 //symgo:pkg github.com/pion/dtls/v3/pkg/protocol/recordlayer
 //symgo:param NDG quick=29 thorough=44
-//symgo:param NDGCID quick=1 thorough=2
+//symgo:param NDGCID quick=2 thorough=3
 //symgo:outside datagrams longer than the bound (so: at most two or three minimal records per datagram); the splitters are loops whose body is the same for every record, each iteration is covered from an arbitrary offset reached by the previous one
 
 // zzWalk12 is the reference splitter for DTLS 1.2 datagrams written from RFC 6347 4.1 / RFC 9146 4:
